@@ -411,6 +411,7 @@ static void worker_loop(int w, int W, uint64_t start_k, uint64_t total, Slot *sl
         slot->pin[0] = 0;
         slot->inflight.store(idx + 1);
         Json plan = gen_plan(idx);
+        if (O.runs_div > 1 && H->time_limit(plan) > 60) continue;   // the twin build's pass leaves the plans that take minutes to the main pass
         Ctx c; c.prop = O.prop; c.pin_slot = slot->pin; c.pin_slot_size = sizeof slot->pin;
         alarm(2 * hang_limit(plan));
         H->exec(plan, c);
